@@ -256,6 +256,21 @@ impl Type {
     }
 
     /// Convert a [`async_graphql_parser::types::Type`] to a [`Type`].
+    /// Whether the given GraphQL type has few enough nested list levels to be represented as a [`Type`].
+    /// [`Type::from_type`] panics otherwise, so callers handling untrusted input must check first.
+    pub(crate) fn is_representable(ty: &async_graphql_parser::types::Type) -> bool {
+        let mut base = &ty.base;
+        let mut depth = 0u64;
+        while let async_graphql_parser::types::BaseType::List(inner) = base {
+            depth += 1;
+            if depth > Modifiers::MAX_LIST_DEPTH {
+                return false;
+            }
+            base = &inner.base;
+        }
+        true
+    }
+
     pub(crate) fn from_type(ty: &async_graphql_parser::types::Type) -> Type {
         let mut base = &ty.base;
 
